@@ -121,3 +121,58 @@ Proof.
   cbn [remove_encryption_boxes filter]. destruct (remove_encryption_boxes t) as [r n]. cbn [fst snd] in *.
   destruct (tk b); cbn [is_prot_kind negb fst snd map sumN]; rewrite ?IH1, ?IH2; split; reflexivity.
 Qed.
+
+(* ---------------------------------------------------------------- any decodable encrypted fragment *)
+Lemma reb_size ch :
+  sumN (map tsize (fst (remove_encryption_boxes ch))) + snd (remove_encryption_boxes ch) = sumN (map tsize ch).
+Proof.
+  induction ch as [|b t IH]; [reflexivity|].
+  cbn [remove_encryption_boxes]. destruct (remove_encryption_boxes t) as [r n]. cbn [fst snd] in *.
+  destruct (tk b); cbn [fst snd map sumN]; lia.
+Qed.
+
+Lemma strip_size cs :
+  sumN (map mchild_size (fst (strip_trafs cs))) + snd (strip_trafs cs) = sumN (map mchild_size cs).
+Proof.
+  induction cs as [|c t IH]; [reflexivity|].
+  destruct c as [ch|s i|s i]; cbn [strip_trafs].
+  - pose proof (reb_size ch) as Hr. destruct (remove_encryption_boxes ch) as [ch' n].
+    destruct (strip_trafs t) as [r m]. cbn [fst snd map sumN mchild_size] in *. unfold traf_size. lia.
+  - destruct (strip_trafs t) as [r m]. cbn [fst snd map sumN mchild_size] in *. lia.
+  - destruct (strip_trafs t) as [r m]. cbn [fst snd map sumN mchild_size] in *. lia.
+Qed.
+
+Lemma filter_split_size (f : mchild -> bool) cs :
+  sumN (map mchild_size (filter (fun c => negb (f c)) cs)) + sumN (map mchild_size (filter f cs))
+  = sumN (map mchild_size cs).
+Proof.
+  induction cs as [|c t IH]; [reflexivity|]. cbn [filter]. destruct (f c); cbn [negb map sumN]; lia.
+Qed.
+
+Lemma psshs_size cs :
+  sumN (map mchild_size (fst (remove_psshs cs))) + snd (remove_psshs cs) = sumN (map mchild_size cs).
+Proof.
+  unfold remove_psshs. destruct (existsb is_pssh cs); cbn [fst snd]; [apply filter_split_size|lia].
+Qed.
+
+(* for ANY fragment (third-party content included): when DecryptFragment's surgery succeeds, the trun data offset
+   and the mdat position move by exactly the number of bytes the moof shrinks, so the offset still designates the
+   same mdat bytes; nothing else of the fragment is touched by the surgery *)
+Lemma decrypt_struct_general f g :
+  decrypt_frag_struct f = Ok g ->
+  f_moof_start g = f_moof_start f /\
+  moof_size (f_children g) + (f_data_offset f - f_data_offset g) = moof_size (f_children f) /\
+  f_data_offset g <= f_data_offset f /\
+  (f_moof_start f < f_mdat_start f ->
+   f_mdat_start g + (f_data_offset f - f_data_offset g) = f_mdat_start f \/ f_mdat_start f < f_data_offset f - f_data_offset g).
+Proof.
+  unfold decrypt_frag_struct.
+  pose proof (strip_size (f_children f)) as H1.
+  destruct (strip_trafs (f_children f)) as [cs1 n1]. cbn [fst snd] in H1.
+  pose proof (psshs_size cs1) as H2.
+  destruct (remove_psshs cs1) as [cs2 n2]. cbn [fst snd] in H2.
+  destruct (f_data_offset f <? n1 + n2) eqn:E; [discriminate|]. apply N.ltb_ge in E.
+  intros H. injection H as <-. cbn [f_moof_start f_children f_data_offset f_mdat_start].
+  unfold moof_size. split; [reflexivity|]. split; [lia|]. split; [lia|].
+  intros Hlt. apply N.ltb_lt in Hlt. rewrite Hlt. lia.
+Qed.
